@@ -106,15 +106,15 @@ class C18(Prop):
             r2, w2 = sc.parse_scatangle(fn2, _use_c=False)
             res['again'] = self._canon(r2, w2)
         elif case['kind'] == 'bincmd':
-            _old, new = sc.bin_scatangle(fn, 0, case['bin'] or 1)
+            _old, new = sc.bin_scatangle(fn, 0, case['bin'])
             r2, w2 = sc.parse_scatangle(new, _use_c=False)
             res['cmd'] = self._canon(r2, w2)
-            ref, wref = sc.parse_scatangle(fn, bin_size=case['bin'] or 1, _use_c=False)
+            ref, wref = sc.parse_scatangle(fn, bin_size=case['bin'], _use_c=False)
             res['cmd_ref'] = self._canon(ref, wref)
             os.remove(new)
             # the same through the hook the command line uses (option names as the option parser delivers them)
             kw = sc.pre_inversion(bin_scatangle=True, location_pdf_file_path=[fn], number_location_samples=0,
-                                  bin_scatangle_size=case['bin'] or 1, parallel=False, mpi=False)
+                                  bin_scatangle_size=case['bin'], parallel=False, mpi=False)
             new2 = kw['location_pdf_file_path'][0]
             res['hook_file_is_new'] = new2 != fn
             r3, w3 = sc.parse_scatangle(new2, _use_c=False)
@@ -251,7 +251,7 @@ class C18(Prop):
             d = d or self._same(impl['cmd_ref'], impl['hook'])
             if d:
                 out.append(('bincmd', 'file produced by the command-line binning hook (bin size %r) differs from the binned records: %s'
-                            % (case['bin'] or 1, d), None))
+                            % (case['bin'], d), None))
         return out[:3]
 
     def nontrivial(self, case, impl):
